@@ -498,6 +498,9 @@ Definition check_chain_sound (k : list cmd * list nat * trace) : bool :=
       (let l := run_chain_s 4000 [] bodies renv0 (ds ++ zeros) in
        trace_eqb (chain_trace l) obs && forallb level_sound l)
   end.
+(* (I) for Model/NestedUsed.v: the binding sites lint reports unused (W01) over a chain of functions *)
+Definition check_unused_chain (k : list cmd * list N) : bool :=
+  match k with (bodies, unused) => set_eq_N (unused_chain bodies) unused end.
 (* (I) for Model/Nested.v: supp's alternatives at every read of the body [ci] nested in [outers],
    and the E02 sites among its reads *)
 Definition check_nested (k : list lvl * lvl * list (N * list alt) * list N) : bool :=
@@ -516,6 +519,7 @@ def part_d(ctx):
     cap = ctx.pick(12, 60)
     terms, meta = [], []
     rterms, rmeta, rbad = [], [], []
+    uterms, umeta = [], []
     depth_hist = {}
     top_hist = {}
     kind_hist = {}
@@ -575,6 +579,9 @@ def part_d(ctx):
                                                     '; '.join(items), '; '.join(str(x) for x in e02s)))
             meta.append((src, lvl, bodies, splits))
         kind_hist[tuple(kinds)] = kind_hist.get(tuple(kinds), 0) + 1
+        if top == 'func' and 'cls' not in kinds:
+            uterms.append('([%s], [%s])' % ('; '.join(mcoq(i, b) for i, b in enumerate(bodies)), '; '.join(str(x) for x in sorted(obs['unused']))))
+            umeta.append((src, sorted(obs['unused'])))
         if 'cls' in kinds:
             continue        # a class body runs where it stands, not when called: (I) only
         # (R): cut every body at a call point behind the nested def, run under CPython
@@ -601,10 +608,17 @@ def part_d(ctx):
                         'instrumented': code, 'decisions': runs[-1][0], 'trace': runs[-1][1][:12]})
     for code, what, eff in rbad[:3]:
         ctx.violation(what, {'kind': 'harness-D', 'code': code, 'decisions': eff}, found_input=False)
-    bad = ctx.run_cases(rc.IMPORTS + ['Model.Nested', 'Model.NestedRun', 'Model.NestedCls', 'Model.NestedRunS'], NESTED_PRELUDE, 'check_nested', terms, shard=150)
-    bad_r = ctx.run_cases(rc.IMPORTS + ['Model.Nested', 'Model.NestedRun', 'Model.NestedCls', 'Model.NestedRunS'], NESTED_PRELUDE, 'check_chain', rterms, shard=300)
-    outside = ctx.run_cases(rc.IMPORTS + ['Model.Nested', 'Model.NestedRun', 'Model.NestedCls', 'Model.NestedRunS'], NESTED_PRELUDE, 'chain_okx', rterms, shard=300)
-    bad_s = ctx.run_cases(rc.IMPORTS + ['Model.Nested', 'Model.NestedRun', 'Model.NestedCls', 'Model.NestedRunS'], NESTED_PRELUDE, 'check_chain_sound', rterms, shard=300)
+    bad = ctx.run_cases(rc.IMPORTS + ['Model.Nested', 'Model.NestedRun', 'Model.NestedCls', 'Model.NestedRunS', 'Model.NestedUsed'], NESTED_PRELUDE, 'check_nested', terms, shard=150)
+    bad_r = ctx.run_cases(rc.IMPORTS + ['Model.Nested', 'Model.NestedRun', 'Model.NestedCls', 'Model.NestedRunS', 'Model.NestedUsed'], NESTED_PRELUDE, 'check_chain', rterms, shard=300)
+    outside = ctx.run_cases(rc.IMPORTS + ['Model.Nested', 'Model.NestedRun', 'Model.NestedCls', 'Model.NestedRunS', 'Model.NestedUsed'], NESTED_PRELUDE, 'chain_okx', rterms, shard=300)
+    bad_s = ctx.run_cases(rc.IMPORTS + ['Model.Nested', 'Model.NestedRun', 'Model.NestedCls', 'Model.NestedRunS', 'Model.NestedUsed'], NESTED_PRELUDE, 'check_chain_sound', rterms, shard=300)
+    bad_u = ctx.run_cases(rc.IMPORTS + ['Model.Nested', 'Model.NestedRun', 'Model.NestedCls', 'Model.NestedRunS', 'Model.NestedUsed'], NESTED_PRELUDE, 'check_unused_chain', uterms, shard=150)
+    cov['D_unused_chains_compared'] = len(uterms)
+    cov['D_unused_disagreements'] = len(bad_u)
+    if bad_u:
+        src, un = umeta[bad_u[0]]
+        ctx.violation('(I) correspondence Model/NestedUsed.v vs lint (unused bindings over a chain of nested functions) no longer checks on %d chains' % len(bad_u),
+                      {'kind': 'correspondence-nested-unused', 'theorem': 'C01_chain_no_false_unused (model tie)', 'source': src, 'lint_unused_sites': un}, found_input=False)
     cov['D_executions_in_fragment_okx'] = len(rterms) - len(outside)
     cov['D_sound_disagreements'] = len(bad_s)
     if bad_s:
